@@ -42,6 +42,14 @@ def tag_loads(b):
     return json.loads(b[3:])
 
 
+def user_marshaller(x):
+    return ["M", 1]
+
+
+def user_unmarshaller(x):
+    return ("U", x)
+
+
 CONFIGS = {
     "default": (None, None),            # nothing passed: compat.json.dumps / loads (orjson if importable)
     "stdlib": (std_dumps, std_loads),
@@ -124,7 +132,7 @@ def decode_inputs(rng: random.Random, encs: list, v, bytes_t: bool):
     return keep
 
 
-def observe(case: dict, config: str, rng: random.Random) -> dict:
+def observe(case: dict, config: str, rng: random.Random, with_user: bool = False) -> dict:
     """Run one (T, v, configuration) on the implementation: fill the tables of the four glued callables by
     calling them directly, and record what the entry points themselves return."""
     import typelib
@@ -212,8 +220,25 @@ def observe(case: dict, config: str, rng: random.Random) -> dict:
             calls.append((("ExplDec", 0, didx, bid), o2r(od["expl"])))
     if supported[1]:
         calls.append((("ApiEnc", vid, None, eidx), o2r(obs["api_enc_not"])))
+    user_m, user_u = [], []
+    if with_user:
+        # codec(T, marshaller=m, unmarshaller=u, ...): the supplied objects are used as given
+        cm = lambda: typelib.codec(T, marshaller=user_marshaller, unmarshaller=user_unmarshaller, **ekw, **dkw)
+        wm = call(I, user_marshaller, v)
+        user_m = [(vid, wm)]
+        if wm[1] not in [w for w, _ in dumps_tbl]:
+            dumps_tbl.append((wm[1], call(I, js.dumps, I.objs[wm[1]])))
+            if e:
+                user_e.append((wm[1], call(I, e, I.objs[wm[1]])))
+        xs = list(bids)
+        for tb in (loads_tbl, user_d):
+            xs += [res[1] for _, res in tb if res[0] == "ok"]
+        user_u = [(x, call(I, user_unmarshaller, I.objs[x])) for x in dict.fromkeys(xs)]
+        calls.append((("CodecEncM", 0, 2, 3, eidx, didx, vid), o2r(raw(lambda: cm().encode(v)))))
+        for bid, b in zip(bids, bs):
+            calls.append((("CodecDecM", 0, 2, 3, eidx, didx, bid), o2r(raw(lambda: cm().decode(b)))))
     world = {"mar": mar_tbl, "unm": unm_tbl, "bytes": isb, "class": [(vid, 1)], "dumps": dumps_tbl,
-             "loads": loads_tbl, "user": [user_e, user_d]}
+             "loads": loads_tbl, "user": [user_e, user_d, user_m, user_u]}
     return {"world": world, "calls": calls, "supported": supported[0], "obs": obs, "inputs": bs, "T": T, "v": v, "nobj": len(I.objs)}
 
 
@@ -262,6 +287,8 @@ def emit_call(c):
         return f"CodecDec {N(c[1])} {emit_optnat(c[2])} {emit_optnat(c[3])} {N(c[4])}"
     if k == "ExplDec":
         return f"ExplDec {N(c[1])} {emit_optnat(c[2])} {N(c[3])}"
+    if k in ("CodecEncM", "CodecDecM"):
+        return f"{k} {N(c[1])} {c[2]}%nat {c[3]}%nat {emit_optnat(c[4])} {emit_optnat(c[5])} {N(c[6])}"
     raise ValueError(c)
 
 
@@ -318,6 +345,7 @@ def prove(run: lib.Run):
     if ok and run.tier == "thorough":
         cmd = ["coqchk", "-silent", "-o", "-Q", lib.THEORIES, "TL", "-Q", run.build, "TLRun", "TLRun.Run_C02"]
         rc, out, err = lib.sh(cmd, timeout=900, cwd=run.build)
+        out = out + "\n" + err
         axioms = out.split("* Axioms:", 1)[1].split("*", 1)[0].strip() if "* Axioms:" in out else "?"
         run.oblige("coqchk -o TLRun.Run_C02: re-checked by the standalone checker, Axioms: <none>",
                    rc == 0 and axioms == "<none>", f"rc={rc} axioms={axioms} {err[-300:]}")
@@ -383,7 +411,7 @@ def correspond(run: lib.Run):
     nontrivial = 0
     law = collections.Counter()
     for case, config in stream:
-        o = observe(case, config, run.rng)
+        o = observe(case, config, run.rng, with_user=(len(observations) % 5 == 2))
         observations.append(o)
         descs.append(brief(case, config, o))
         dist["head"][case.get("head", "?")] += 1
@@ -515,7 +543,7 @@ def show(o):
     return repr(o[1])[:200] if o[0] == "ok" else f"raises {o[2]}"
 
 
-def oracle(case: dict, config: str, rng: random.Random, law=None) -> list[dict]:
+def oracle(case: dict, config: str, rng: random.Random, law=None, user_clause=None) -> list[dict]:
     import typelib
     impl.clear_caches()
     _, T, v = U.build(case)
@@ -604,9 +632,8 @@ def oracle(case: dict, config: str, rng: random.Random, law=None) -> list[dict]:
                 fail("roundtrip", "codec(T).decode(codec(T).encode(v)) is not v", got=show(rt), c01_direct_ok=c01_ok,
                      encoded=show(cdc))
     # -- user-supplied marshaller / unmarshaller objects are used as given
-    if rng.random() < 0.1 and not bytes_t:
-        m = lambda x: ["M", 1]
-        u = lambda x: ("U", x)
+    if (rng.random() < 0.1 if user_clause is None else user_clause) and not bytes_t:
+        m, u = user_marshaller, user_unmarshaller
         cu = raw(lambda: typelib.codec(T, marshaller=m, unmarshaller=u, **ekw, **dkw).encode(v))
         ex = raw(lambda: enc_f(["M", 1]))
         if not same_out(cu, ex):
@@ -670,7 +697,7 @@ def replay(payload):
     case = {k: payload[k] for k in ("source", "texpr", "vexpr")}
     for k in ("inq", "c01_safe", "union", "bytes_t", "head"):
         case[k] = payload.get(k)
-    fs = oracle(case, payload.get("config", "default"), random.Random(payload.get("seed", 0)))
+    fs = oracle(case, payload.get("config", "default"), random.Random(payload.get("seed", 0)), user_clause=True)
     if payload.get("clause"):
         fs = [f for f in fs if f["clause"] == payload["clause"]] or fs
     return {"fails": bool(fs), "failures": [{k: v for k, v in f.items() if k != "source"} for f in fs]}
